@@ -195,7 +195,7 @@ struct LockEngine : Engine {
 		int ret = 0;
 		switch (gop) {
 		case GO_CTOR_LOCK:
-			if (mtx[m]->owner && mtx[m]->owner != me) probe(P_blocked_on_guard);
+			if (mtx[m]->owner >= 0 && mtx[m]->owner != me) probe(P_blocked_on_guard);
 			sut_guard_op(gt, gop, slots[me][a], nullptr, mtx[m]); A = {true, m, true}; break;
 		case GO_CTOR_DEFER: sut_guard_op(gt, gop, slots[me][a], nullptr, mtx[m]); A = {true, m, false}; break;
 		case GO_CTOR_ADOPT:
@@ -271,7 +271,7 @@ struct LockEngine : Engine {
 		} else {
 			for (int i = 0; i < nlocks; i++) {
 				SimMutex *m = mtx[i];
-				if (m->owner || m->shared) violation("guard_balance", "mutex %d still held (owner %d, shared %d) after all guards were destroyed", i, m->owner, m->shared);
+				if (m->owner >= 0 || m->shared) violation("guard_balance", "mutex %d still held (owner %d, shared %d) after all guards were destroyed", i, m->owner, m->shared);
 				if (m->n_lock != m->n_unlock || m->n_lock_shared != m->n_unlock_shared)
 					violation("guard_balance", "mutex %d: lock %u / unlock %u / lock_shared %u / unlock_shared %u calls do not pair up", i, m->n_lock, m->n_unlock, m->n_lock_shared, m->n_unlock_shared);
 			}
